@@ -767,6 +767,36 @@ theorem blind_mini_world : Blind Mini.world := by
     show ((a .layout : Mini.Layout).queue).isEmpty = ((b .layout : Mini.Layout).queue).isEmpty
     rw [hl]
 
+/-- **failed_request_moves_index_pinned_counterexample** [t7:in-use].  "If the file to reload does not
+parse, kanata … behaves exactly as if no reload had been requested" fails for `lrld-next` (likewise
+prev / num / file): the request moves `cur_cfg_idx` when it is made (`applyAct`), the failed
+`do_live_reload` returns the state unchanged (`reload_fail_is_noop`) - with the index still on the
+file that failed.  With two files, the second one broken, the first one running: after the failed
+`lrld-next` a plain `lrld` selects file 1, the broken one, not the file whose configuration runs.
+Reproduced on the real code (`C15 S nf 2 ok … syn`: `rq1 fail … rq1 fail`, the specification run
+has `rq1 fail … rq0 ok`); recorded as a known finding (repair proposed: restore the index on Err). -/
+theorem failed_request_moves_index_pinned_counterexample (env : Env W.toTypes) (s : KSt W) (p0 p1 : Nat)
+    (hpaths : (s .cfg_paths : List Nat) = [p0, p1]) (hidx : (s .cur_cfg_idx : Nat) = 0)
+    (hfail : newFromFile env p1 = none) :
+    ∃ s1 : KSt W, applyAct s (.reload .next) = .ok s1 ∧
+      doLiveReload env s1 = .ok ⟨s1, [], false⟩ ∧
+      selectIndex (s1 .cfg_paths) (s1 .cur_cfg_idx) .cur = .ok (1, true) ∧
+      selectIndex (s .cfg_paths) (s .cur_cfg_idx) .cur = .ok (0, true) := by
+  refine ⟨(s.set .cur_cfg_idx (1 : Nat)).set .live_reload_requested true, ?_, ?_, ?_, ?_⟩
+  · simp only [applyAct, hpaths, hidx, selectIndex]
+    rfl
+  · have hp : (((s.set .cur_cfg_idx (1 : Nat)).set .live_reload_requested true) .cfg_paths : List Nat) = [p0, p1] := by
+      rw [St.set_other _ _ _ _ (by decide), St.set_other _ _ _ _ (by decide)]; exact hpaths
+    have hi : (((s.set .cur_cfg_idx (1 : Nat)).set .live_reload_requested true) .cur_cfg_idx : Nat) = 1 := by
+      rw [St.set_other _ _ _ _ (by decide)]; exact St.set_same _ _ _
+    exact reload_fail_is_noop env _ p1 (by rw [hp, hi]; rfl) hfail
+  · have hp : (((s.set .cur_cfg_idx (1 : Nat)).set .live_reload_requested true) .cfg_paths : List Nat) = [p0, p1] := by
+      rw [St.set_other _ _ _ _ (by decide), St.set_other _ _ _ _ (by decide)]; exact hpaths
+    have hi : (((s.set .cur_cfg_idx (1 : Nat)).set .live_reload_requested true) .cur_cfg_idx : Nat) = 1 := by
+      rw [St.set_other _ _ _ _ (by decide)]; exact St.set_same _ _ _
+    rw [hp, hi]; rfl
+  · rw [hpaths, hidx]; rfl
+
 /-- a history that meets the hypotheses of `reload_fail_run_equiv`: `lrld` tapped while the file is
 syntactically broken -/
 example : ∃ s' out, runNB (W := Mini.world) false
